@@ -22,9 +22,9 @@ def _spaces(r, quick):
     for a in small[:: 2 if quick else 1]:
         for b in ([[5]], [[2.5, 0.5]], [[3, 1, 2]]):
             out.append({"a": list(a), "b": list(b[0])})
-    for _ in range(20 if quick else 200):
+    for _ in range(C.T(20, 200)):
         out.append(gen.gen_space(r, ndims=r.choice([1, 2, 3, 4, 5]), sizes=[1, 2, 3, 5, 10, 31, 50]))
-    for _ in range(6 if quick else 40):   # duplicate values: outside the property's premise, correspondence only
+    for _ in range(C.T(6, 40)):   # duplicate values: outside the property's premise, correspondence only
         out.append(gen.gen_space(r, ndims=r.choice([1, 2]), sizes=[3, 5, 10], kinds=("mixed",), allow_dups=True))
     return out
 
